@@ -710,6 +710,9 @@ class BptkServer(Flask):
             individual_agent_properties=individual_agent_properties
         )
 
+        if self._external_state_adapter != None:
+            self._external_state_adapter.save_instance(self._instance_manager._get_instance_state(instance_uuid))
+
         resp = make_response('{"msg":"session started"}', 200)
         resp.headers['Content-Type'] = 'application/json'
         resp.headers['Access-Control-Allow-Origin']='*'
@@ -728,6 +731,9 @@ class BptkServer(Flask):
 
         instance = self._instance_manager.get_instance(instance_uuid)
         instance.end_session()
+
+        if self._external_state_adapter != None:
+            self._external_state_adapter.save_instance(self._instance_manager._get_instance_state(instance_uuid))
 
         resp = make_response('{"msg":"session terminated"}', 200)
         resp.headers['Content-Type'] = 'application/json'
